@@ -145,7 +145,7 @@ func (r *Decoder) drainLine(uncommitted cursorio.DecodedRuneList) error {
 			return err
 		}
 
-		if r0.Rune == '\n' {
+		if r0.Rune == '\n' || r0.Rune == '\r' {
 			r.commit(append(uncommitted, r0).AsDecodedRunes())
 
 			return nil
